@@ -33,12 +33,20 @@ import (
 // range statement over a map whose key type can be looked up again.
 type mapRanges map[string]bool
 
+// typeFacts: what the rewrites need to know from the type checker.
+type typeFacts struct {
+	mapRange   mapRanges
+	chanRange  map[string]bool // range over a channel, keyed by the position of `for`
+	chanLenCap map[string]bool // len()/cap() of a channel, keyed by the position of `(`
+}
+
 type modImporter struct {
 	root  string
 	fset  *token.FileSet
 	std   types.Importer
 	pkgs  map[string]*types.Package
 	found mapRanges
+	facts *typeFacts
 	errs  []string
 }
 
@@ -89,12 +97,28 @@ func (m *modImporter) check(path string) (*types.Package, error) {
 	m.pkgs[path] = pkg
 	for _, f := range files {
 		ast.Inspect(f, func(n ast.Node) bool {
+			if call, ok := n.(*ast.CallExpr); ok && len(call.Args) == 1 {
+				if id, ok := call.Fun.(*ast.Ident); ok && (id.Name == "len" || id.Name == "cap") {
+					if tv, ok := info.Types[call.Args[0]]; ok {
+						if _, isChan := tv.Type.Underlying().(*types.Chan); isChan {
+							pos := m.fset.Position(call.Lparen)
+							m.facts.chanLenCap[fmt.Sprintf("%s:%d", pos.Filename, pos.Offset)] = true
+						}
+					}
+				}
+				return true
+			}
 			rs, ok := n.(*ast.RangeStmt)
 			if !ok {
 				return true
 			}
 			tv, ok := info.Types[rs.X]
 			if !ok {
+				return true
+			}
+			if _, isChan := tv.Type.Underlying().(*types.Chan); isChan {
+				pos := m.fset.Position(rs.For)
+				m.facts.chanRange[fmt.Sprintf("%s:%d", pos.Filename, pos.Offset)] = true
 				return true
 			}
 			mt, ok := tv.Type.Underlying().(*types.Map)
@@ -119,9 +143,10 @@ func (m *modImporter) check(path string) (*types.Package, error) {
 }
 
 // findMapRanges type-checks every package directory of the library.
-func findMapRanges(root string, pkgDirs []string) (mapRanges, error) {
+func findMapRanges(root string, pkgDirs []string) (*typeFacts, error) {
 	fset := token.NewFileSet()
-	m := &modImporter{root: root, fset: fset, std: importer.ForCompiler(fset, "source", nil), pkgs: map[string]*types.Package{}, found: mapRanges{}}
+	facts := &typeFacts{mapRange: mapRanges{}, chanRange: map[string]bool{}, chanLenCap: map[string]bool{}}
+	m := &modImporter{root: root, fset: fset, std: importer.ForCompiler(fset, "source", nil), pkgs: map[string]*types.Package{}, found: facts.mapRange, facts: facts}
 	sort.Strings(pkgDirs)
 	for _, d := range pkgDirs {
 		path := modPath
@@ -132,7 +157,7 @@ func findMapRanges(root string, pkgDirs []string) (mapRanges, error) {
 			return nil, fmt.Errorf("type-check %s: %v %v", path, err, m.errs)
 		}
 	}
-	return m.found, nil
+	return facts, nil
 }
 
 // rewriteMapRange turns
